@@ -276,6 +276,111 @@ def make_gate(name, controls, targets):
 
 
 # ------------------------------------------------------------------------------------------
+# numeric types of the integer-valued arguments (Model/EmbedNum.lean)
+NUM_KINDS = {"int": "i", "bool": "b", "i64": "n", "i32": "n", "u8": "n", "arr0": "a", "float": "f", "f64": "f"}
+NUM_INTEGRAL = ("int", "i64", "i32", "u8")          # types a well-formed request may not be refused for
+
+
+def mk_num(kind, v):
+    return {"int": int, "bool": bool, "i64": np.int64, "i32": np.int32, "u8": np.uint8, "arr0": np.array,
+            "float": float, "f64": np.float64}[kind](v)
+
+
+def num_s(x):
+    return f"{NUM_KINDS[x[0]]}:{int(x[1])}"
+
+
+def typed_container(form, nums):
+    vals = [mk_num(k, v) for k, v in nums]
+    if form == "tuple":
+        return tuple(vals)
+    if form == "array":                     # homogeneous kinds only (see _typed_cases)
+        return np.array(vals)
+    return vals
+
+
+def typed_call(w):
+    """perform the call described by a `typed` witness -> ("ok", [Qobj..]) | (error class, None); the operator matrix"""
+    from qutip_qip.pulse import Pulse, Drift
+    e = w["entry"]
+    ts = None if w["targets"] is None else (mk_num(*w["targets"][1]) if w["targets"][0] == "scalar"
+                                            else typed_container(w.get("tform", "list"), w["targets"][1]))
+    dims = None if w["dims"] is None else (mk_num(*w["dims"][1]) if w["dims"][0] == "scalar"
+                                           else typed_container(w.get("dform", "list"), w["dims"][1]))
+    size = None if w.get("size") is None else mk_num(*w["size"])
+    with warnings.catch_warnings():
+        warnings.simplefilter("ignore")
+        try:
+            if e == "gate":
+                nm = w["gate"]
+                c = GATE_KINDS[nm]["c"]
+                from qutip_qip.operations import Gate
+                kw = {"arg_value": GATE_KINDS[nm]["arg"]} if "arg" in GATE_KINDS[nm] else {}
+                g = Gate(nm, targets=list(ts[c:]), controls=(list(ts[:c]) if c else None), **kw)
+                M = g.get_compact_qobj().full()
+                kw2 = {}
+                if size is not None:
+                    kw2["num_qubits"] = size
+                if dims is not None:
+                    kw2["dims"] = dims
+                return "ok", [g.get_qobj(**kw2)], M
+            oper, M = generic_oper(w["od"])
+            if e == "expand":
+                kw = {}
+                if size is not None:
+                    kw["N"] = size
+                if dims is not None:
+                    kw["dims"] = dims
+                if w["targets"] is not None:
+                    kw["targets"] = ts
+                expand_operator, _q = _impl()
+                return "ok", [expand_operator(oper, **kw)], M
+            if e == "pulse":
+                return "ok", [Pulse(oper, ts).get_ideal_qobj(dims)], M
+            if e == "drift":
+                d = Drift()
+                d.add_drift(oper, ts)
+                return "ok", [d.get_ideal_qobjevo(dims)(0.0)], M
+        except Exception as ex:
+            return classify_exc(ex), None, (None if "M" not in dir() else M)
+    raise ValueError(e)
+
+
+def typed_line(w):
+    """the request of a `typed` witness for the driver command `argst`"""
+    e = w["entry"]
+    if e == "gate":
+        k = GATE_KINDS[w["gate"]]["k"]
+        opl = [2] * k
+    else:
+        opl = w["od"]
+    n = "none"
+    if w["dims"] is None:
+        if e == "gate":
+            if w.get("size") is None:
+                mx = max(int(v) for _k, v in w["targets"][1]) + 1
+                d = f"qi:{mx}"
+            else:
+                d = "q" + num_s(w["size"])
+        else:
+            d = "none"
+            n = "none" if w.get("size") is None else num_s(w["size"])
+    elif w["dims"][0] == "scalar":
+        d = "p" + num_s(w["dims"][1])
+    else:
+        d = "l" + ",".join(num_s(x) for x in w["dims"][1])
+        if e == "expand" and w.get("size") is not None:
+            n = num_s(w["size"])
+    if w["targets"] is None:
+        t = "none"
+    elif w["targets"][0] == "scalar":
+        t = "s" + num_s(w["targets"][1])
+    else:
+        t = "l" + ",".join(num_s(x) for x in w["targets"][1])
+    return (f"argst n={n} dims={d} t={t} opl={','.join(map(str, opl))} opr={','.join(map(str, opl))} cyclic=0")
+
+
+# ------------------------------------------------------------------------------------------
 # large registers (9-12 subsystems): sparse operators, structured specification (no 2^N x 2^N dense matrix)
 def sparse_oper(od, entries):
     """operator on subsystems `od` with the given non-zero entries [(a, b, value)], stored as CSR"""
@@ -347,6 +452,9 @@ class C08(PropertyCheck):
         "QipVerif.C08.args_one_sound",
         "QipVerif.C08.args_sound",
         "QipVerif.C08.args_cyclic",
+        "QipVerif.C08.num_coerce_value",
+        "QipVerif.C08.args_typed_sound",
+        "QipVerif.C08.args_typed_int",
         "QipVerif.C08.history_get_current",
         "QipVerif.C08.elem_get_sound",
         "QipVerif.C08.embed_apply",
@@ -364,7 +472,8 @@ class C08(PropertyCheck):
                   "assumed (tensor_digits, permute_digits), and the flat model equals the digit-tuple model used by the other "
                   "properties (flat_eq_digits). new_order is a permutation; validation accepts exactly well-formed requests; "
                   "every accepted call in any argument form (N=, dims=None, targets None/int/list, cyclic_permutation) is such a "
-                  "well-formed placement on dims[:N] (args_*); the objects that embed on demand (_EvoElement behind Pulse / "
+                  "well-formed placement on dims[:N] (args_*); numbers passed as bool / numpy integer / 0-d array / integral float are used with their own "
+                  "value or the call raises (num_coerce_value, args_typed_sound); the objects that embed on demand (_EvoElement behind Pulse / "
                   "Drift) answer from their current fields only, after any history of re-assignments and requests "
                   "(history_get_current, elem_get_sound). Tie: histories on one real object (re-targeting through the public "
                   "setters, replacing the operator, changing dims) at every observation point (Pulse.get_ideal_qobj / "
@@ -395,7 +504,7 @@ class C08(PropertyCheck):
     rule = ("case = (dims over {2,3,4}, injective target tuple, operator kind, dtype, whole matrix or sampled rows) for the "
             "flat-index and the digit-tuple model; (structure, order) / (D, rest) for the index conventions; (N, dims, targets "
             "form, operator dims, cyclic) for the argument forms; (entry point, elements, sequence of assignments and "
-            "requests) for histories on one object; non-trivial = at least one non-target subsystem or a "
+            "requests) for histories on one object; (entry point, numeric type of every number) for typed requests; non-trivial = at least one non-target subsystem or a "
             "non-identity target order / a non-identity order; malformed and validation streams counted separately")
 
     # ---------------------------------------------------------------------------------
@@ -1215,6 +1324,198 @@ class C08(PropertyCheck):
             return True, f"stored entries differ from the specified embedding, e.g. at {diff[0][0]}"
         return False, "equals the specified embedding"
 
+
+    # ---------------------------------------------------------------------------------
+    # numeric types of N / num_qubits / targets entries / dims entries (Model/EmbedNum.lean)
+    def _typed_cases(self, ctx, n_random):
+        rng = ctx.rng
+        kinds = list(NUM_KINDS)
+        def vals(k, lo, hi):
+            return [v for v in range(lo, hi + 1) if k != "bool" or v in (0, 1)]
+        # sizes: N of expand_operator, num_qubits of Gate.get_qobj (with / without dims), integer dims of Pulse / Drift
+        for k in kinds:
+            for v in vals(k, 1, 4):
+                for t in (0, v - 1):
+                    yield {"kind": "typed", "entry": "expand", "od": [2], "size": [k, v], "dims": None,
+                           "targets": ["list", [["int", t]]]}
+                    for e in ("pulse", "drift"):
+                        yield {"kind": "typed", "entry": e, "od": [2], "dims": ["scalar", [k, v]],
+                               "targets": ["list", [["int", t]]]}
+                yield {"kind": "typed", "entry": "expand", "od": [2, 2], "size": [k, v], "dims": None, "targets": None}
+                for g, tg in (("X", [0]), ("X", [1]), ("CNOT", [1, 0]), ("SWAP", [0, 2]), ("TOFFOLI", [2, 0, 1])):
+                    w = {"kind": "typed", "entry": "gate", "gate": g, "size": [k, v], "dims": None,
+                         "targets": ["list", [["int", t] for t in tg]]}
+                    yield w
+                    yield dict(w, dims=["list", [["int", 2]] * 3 + [["int", 3]]])      # dims given: num_qubits is not used
+        # targets: scalar and entries
+        for k in kinds:
+            for v in vals(k, 0, 2):
+                for dims, od in (([2, 2, 2], [2]), ([2, 3, 2], [2]), ([2, 3, 2], [3])):
+                    dl = ["list", [["int", d] for d in dims]]
+                    yield {"kind": "typed", "entry": "expand", "od": od, "dims": dl, "targets": ["scalar", [k, v]]}
+                    yield {"kind": "typed", "entry": "expand", "od": od, "dims": dl, "targets": ["list", [[k, v]]]}
+                    yield {"kind": "typed", "entry": "pulse", "od": od, "dims": dl, "targets": ["scalar", [k, v]]}
+                    yield {"kind": "typed", "entry": "drift", "od": od, "dims": dl, "targets": ["list", [[k, v]]]}
+                yield {"kind": "typed", "entry": "expand", "od": [2, 2], "dims": ["list", [["int", 2]] * 3],
+                       "targets": ["list", [[k, v], ["int", (v + 1) % 3]]]}
+                yield {"kind": "typed", "entry": "gate", "gate": "X", "size": ["int", 3], "dims": None, "targets": ["list", [[k, v]]]}
+                yield {"kind": "typed", "entry": "gate", "gate": "CNOT", "size": None, "dims": ["list", [["int", 2]] * 3],
+                       "targets": ["list", [["int", (v + 1) % 3], [k, v]]]}
+        # entries of dims: at a target position and elsewhere
+        for k in kinds:
+            for v in vals(k, 1, 3):
+                for pos in range(3):
+                    for tpos in range(3):
+                        base = [["int", 2], ["int", 3], ["int", 2]]
+                        base[pos] = [k, v]
+                        od = [int(base[tpos][1])]
+                        if od[0] < 1:
+                            continue
+                        for e in ("expand", "pulse"):
+                            yield {"kind": "typed", "entry": e, "od": od, "dims": ["list", base],
+                                   "targets": ["list", [["int", tpos]]]}
+                yield {"kind": "typed", "entry": "gate", "gate": "X", "size": None,
+                       "dims": ["list", [["int", 2], [k, v], [k, 2 if k != "bool" else 1]]], "targets": ["list", [["int", 0]]]}
+        # containers: tuple / numpy array (homogeneous numpy kinds) / range
+        for form in ("tuple", "array"):
+            for k in ("i64", "u8", "f64"):
+                yield {"kind": "typed", "entry": "expand", "od": [3], "dims": ["list", [[k, 2], [k, 3], [k, 2]]], "dform": form,
+                       "targets": ["list", [["int", 1]]]}
+                yield {"kind": "typed", "entry": "expand", "od": [2, 2], "dims": ["list", [["int", 2]] * 3],
+                       "targets": ["list", [[k, 2], [k, 0]]], "tform": form}
+                yield {"kind": "typed", "entry": "pulse", "od": [2, 2], "dims": ["list", [[k, 2], [k, 2], [k, 3]]], "dform": form,
+                       "targets": ["list", [[k, 1], [k, 0]]], "tform": form}
+        # random mixtures
+        for _ in range(n_random):
+            e = rng.choice(["expand", "expand", "gate", "gate", "pulse", "drift"])
+            def rk(p_plain=0.5):
+                return "int" if rng.random() < p_plain else rng.choice(kinds)
+            def num(v, p=0.5):
+                k = rk(p)
+                if k == "bool" and v not in (0, 1):
+                    k = "i32"
+                return [k, v]
+            n = rng.randint(1, 4)
+            reg = [rng.choice([2, 2, 3]) for _ in range(n)]
+            if e == "gate":
+                g = rng.choice(["X", "RX", "CNOT", "SWAP", "CPHASE", "TOFFOLI"])
+                kq = GATE_KINDS[g]["k"]
+                n = max(n, kq)
+                reg = [2] * n
+                tg = rng.sample(range(n), kq) if rng.random() < 0.9 else [rng.randint(0, n) for _ in range(kq)]
+                w = {"kind": "typed", "entry": "gate", "gate": g, "targets": ["list", [num(t, 0.7) for t in tg]]}
+                form = rng.choice(["n", "n", "dims", "both", "none"])
+                w["size"] = num(n + rng.choice([0, 0, 1, 2]), 0.3) if form in ("n", "both") else None
+                if form in ("dims", "both"):
+                    reg2 = list(reg) + [3] * rng.randint(0, 1)
+                    w["dims"] = ["list", [num(d, 0.6) for d in reg2]]
+                else:
+                    w["dims"] = None
+                yield w
+                continue
+            od_pl = [od for od in self.OD_POOL if self._placements(reg, od)]
+            if not od_pl:
+                continue
+            od = rng.choice(od_pl)
+            tg = rng.choice(self._placements(reg, od)) if rng.random() < 0.9 else [rng.randint(0, n) for _ in od]
+            w = {"kind": "typed", "entry": e, "od": od}
+            if len(tg) == 1 and rng.random() < 0.4:
+                w["targets"] = ["scalar", num(tg[0], 0.3)]
+            else:
+                w["targets"] = ["list", [num(t, 0.5) for t in tg]]
+            if all(d == 2 for d in reg) and rng.random() < 0.4:
+                if e == "expand":
+                    w["size"], w["dims"] = num(n, 0.3), None
+                else:
+                    w["dims"] = ["scalar", num(n, 0.3)]
+            else:
+                w["dims"] = ["list", [num(d, 0.5) for d in reg]]
+            yield w
+
+    def _typed(self, ctx, res):
+        drv = ctx.driver("drv_embed")
+        cases = list(self._typed_cases(ctx, 1500 if ctx.thorough else 400))
+        outs = drv.run([typed_line(w) for w in cases])
+        pl = {}
+        for o in outs:
+            if o.startswith("ok "):
+                ds, ts = o[3:].split(";")
+                pl[(tuple(int(x) for x in ds.split(",") if x), tuple(int(x) for x in ts.split(",") if x))] = None
+        keys = list(pl)
+        pl = dict(zip(keys, drv.run([f"flat dims={','.join(map(str, d))} targets={','.join(map(str, t))}" for d, t in keys])))
+        n_ok = 0
+        for w, o in zip(cases, outs):
+            st, rs, M = typed_call(w)
+            model = "ok" if o.startswith("ok") else o.replace("err ", "")
+            kinds_used = sorted({x[0] for part in (w.get("size"), ) if part for x in [part]}
+                                | {x[0] for x in (w["targets"][1] if w["targets"] and w["targets"][0] == "list" else
+                                                  ([w["targets"][1]] if w["targets"] else []))}
+                                | {x[0] for x in (w["dims"][1] if w["dims"] and w["dims"][0] == "list" else
+                                                  ([w["dims"][1]] if w["dims"] else []))})
+            inp = {"typed": {k: v for k, v in w.items() if k != "kind"}}
+            res.case(inp, nontrivial=kinds_used != ["int"],
+                     tags=["typed", f"typed-entry={w['entry']}", f"typed-verdict={'ok' if model == 'ok' else 'refused'}"]
+                          + [f"numtype={k}" for k in kinds_used])
+            if (st == "ok") != (model == "ok"):
+                res.disagree(inp, model, st, "acceptance of a request with typed numbers", w)
+                continue
+            if st != "ok":
+                continue
+            n_ok += 1
+            ds, ts = o[3:].split(";")
+            reg, nn = [int(x) for x in ds.split(",") if x], [int(x) for x in ts.split(",") if x]
+            E = cells_matrix(pl[(tuple(reg), tuple(nn))][3:].split("|")[1], int(np.prod(reg)), M)
+            r = rs[0]
+            if r.dims != [reg, reg] or r.full().shape != E.shape or not np.array_equal(r.full(), E):
+                res.disagree(inp, {"register": reg, "targets": nn}, r.dims, "operator returned for a request with typed numbers", w)
+        res.notes.append(f"numeric types (int, bool, int64, int32, uint8, 0-d array, float, float64) of N / num_qubits / integer dims / "
+                         f"targets (scalar, entries) / dims entries, containers list / tuple / numpy array, at expand_operator, "
+                         f"Gate.get_qobj (with and without dims), Pulse.get_ideal_qobj, Drift: {len(cases)} requests ({n_ok} accepted, "
+                         "compared entry by entry with the flat model on the register Model/EmbedNum.lean lowers the request to; "
+                         "refusals compared as refusals)")
+
+    def _oracle_typed(self, w):
+        """C08's statement for a request whose numbers carry any numeric type: whatever is returned must be the embedding on
+        the REQUESTED register ([2] * int(n) for a size, the listed dims otherwise) at the requested targets; a refusal is
+        always allowed for bool / 0-d array / float, for int and numpy integers only if the request is not well-formed."""
+        st, rs, M = typed_call(w)
+        e = w["entry"]
+        nums = []
+        if w["targets"] is None:
+            ts = list(range(len(w["od"])))
+        else:
+            tl = [w["targets"][1]] if w["targets"][0] == "scalar" else w["targets"][1]
+            nums += tl
+            ts = [int(v) for _k, v in tl]
+        if w["dims"] is not None:
+            dl = [w["dims"][1]] if w["dims"][0] == "scalar" else w["dims"][1]
+            nums += dl
+            reg = [2] * int(dl[0][1]) if w["dims"][0] == "scalar" else [int(v) for _k, v in dl]
+        elif w.get("size") is not None:
+            reg = [2] * int(w["size"][1])
+        else:
+            reg = [2] * (max(ts) + 1)
+        if w.get("size") is not None and w["dims"] is None:
+            nums.append(w["size"])
+        if e == "expand" and w.get("size") is not None and w["dims"] is not None and int(w["size"][1]) != len(reg):
+            return False, "inconsistent request: not judged"
+        od = [2] * GATE_KINDS[w["gate"]]["k"] if e == "gate" else list(w["od"])
+        wf = (len(ts) == len(od) and len(set(ts)) == len(ts) and all(0 <= t < len(reg) for t in ts)
+              and [reg[t] for t in ts] == od and all(d >= 1 for d in reg))
+        where = f"{e} {({k: v for k, v in w.items() if k not in ('kind', 'entry')})}"
+        if st != "ok":
+            if wf and all(k in NUM_INTEGRAL for k, _v in nums):
+                return True, where + f": well-formed request with integer types rejected ({st})"
+            return False, f"refused ({st})"
+        r = rs[0]
+        if not wf:
+            return True, where + f": malformed request returned a value (dims {r.dims[0]})"
+        if r.dims != [reg, reg]:
+            return True, where + f": result lives on {r.dims[0]}, the requested register is {reg}"
+        if not np.array_equal(r.full(), spec_matrix(reg, ts, M)):
+            return True, where + ": not the specified embedding on the requested register"
+        return False, "the specified embedding on the requested register"
+
     def correspondence(self, ctx, res):
         rng = ctx.rng
         self._conventions(ctx, res, 4 if ctx.thorough else 3)
@@ -1225,6 +1526,7 @@ class C08(PropertyCheck):
         self._histories(ctx, res)
         self._gates(ctx, res)
         self._big_registers(ctx, res)
+        self._typed(ctx, res)
         self._validation_exhaustive(ctx, res, 3)
         exhaustN = 4 if ctx.thorough else 3
         nrows = 8 if ctx.thorough else 6
@@ -1307,6 +1609,8 @@ class C08(PropertyCheck):
             return self._oracle_args(w)
         elif w["kind"] == "big":
             return self._oracle_big(w)
+        elif w["kind"] == "typed":
+            return self._oracle_typed(w)
         elif w["kind"] == "history":
             return self._oracle_history(w)
         elif w["kind"] == "gate":
@@ -1496,6 +1800,10 @@ class C08(PropertyCheck):
                 yield w, d
             if time.time() - t0 > budget_s:
                 return
+        for w in self._typed_cases(ctx, 600):
+            f, d = self.oracle_replay(ctx, w)
+            if f:
+                yield w, d
         for w in self._big_cases(ctx, 150, 12):
             f, d = self.oracle_replay(ctx, w)
             if f:
@@ -1549,6 +1857,12 @@ class C08(PropertyCheck):
 
     def oracle_always(self, ctx):
         for w in self._big_cases(ctx, 12, 11):
+            f, d = self.oracle_replay(ctx, w)
+            if f:
+                yield w, d
+        tc = list(self._typed_cases(ctx, 60))
+        ctx.rng.shuffle(tc)
+        for w in tc[:250]:
             f, d = self.oracle_replay(ctx, w)
             if f:
                 yield w, d
